@@ -26,7 +26,7 @@ func init() {
 }
 
 func c15Rebind(c *core.Ctx) {
-	nh := c.N(150, 6000)
+	nh := c.N(400, 6000)
 	for idx := 0; idx < nh; idx++ {
 		if !c.Mine(idx) {
 			continue
@@ -101,7 +101,7 @@ func c15Rebind(c *core.Ctx) {
 // and attribute them correctly; delivering them under the old column list is
 // the mis-attribution the property excludes.
 func c15Recount(c *core.Ctx) {
-	nh := c.N(96, 3000)
+	nh := c.N(240, 3000)
 	for idx := 0; idx < nh; idx++ {
 		if !c.Mine(idx) {
 			continue
